@@ -18,6 +18,24 @@ fn gen_mat(r: &mut Rng, big: bool) -> [i64; 12] {
     }
     m
 }
+/// matrices near the identity: the identity itself, pure translations (also all-negative), axis flips, projections,
+/// shrinking, one stray off-diagonal entry — what a short cut "nothing to do for the identity" must not swallow
+fn gen_mat_near_identity(r: &mut Rng) -> [i64; 12] {
+    let mut m = [0i64; 12];
+    let negative_only = r.chance(1, 2);
+    for i in 0..3 {
+        for j in 0..4 {
+            m[4 * i + j] = if j == 3 {
+                match r.below(4) { 0 | 1 => 0, 2 => -r.range(1, 64) * U, _ => if negative_only { -r.range(1, 8) * U } else { r.range(1, 64) * U } }
+            } else if i == j {
+                *r.pick(&[1i64, 1, 1, 0, -1, if negative_only { 1 } else { 2 }])
+            } else {
+                *r.pick(&[0i64, 0, 0, 0, -1, if negative_only { 0 } else { 1 }])
+            };
+        }
+    }
+    m
+}
 fn to_real(m: &[i64; 12]) -> TransformationMatrix {
     let f = |i: usize, j: usize| if j == 3 { undec6(m[4 * i + j]) } else { m[4 * i + j] as f64 };
     TransformationMatrix::from_matrix([[f(0, 0), f(0, 1), f(0, 2), f(0, 3)], [f(1, 0), f(1, 1), f(1, 2), f(1, 3)], [f(2, 0), f(2, 1), f(2, 2), f(2, 3)]])
@@ -91,7 +109,8 @@ pub fn gen(tier: &str, r: &mut Rng) -> Vec<String> {
                     }
                 }
             }
-            out.push(format!("c13 struct {} {} {} {} {} {} {} {}", level, p[0], p[1], p[2], p[3], p[4], toks(&gen_mat(r, true)), back.line()));
+            let mat = if r.chance(1, 3) { gen_mat_near_identity(r) } else { gen_mat(r, true) };
+            out.push(format!("c13 struct {} {} {} {} {} {} {} {}", level, p[0], p[1], p[2], p[3], p[4], toks(&mat), back.line()));
         }
     }
     out
